@@ -325,8 +325,8 @@ func (fx *FuncCtx) run() {
 		fx.assume("true", ce.boolOf(ce.ev(rq.Expr), rq.Expr))
 	}
 	for _, v := range st.env {
-		if rr, ok := v.(VRef); ok {
-			fx.emit("(assert (<= " + rr.T + " " + fx.allocTerm(st) + "))")
+		for _, rt := range refTermsOf(v) {
+			fx.emit("(assert (<= " + rt + " " + fx.allocTerm(st) + "))")
 		}
 	}
 	fx.initHeap(st)
